@@ -82,6 +82,11 @@ Inductive action :=
 | CloneDrop (r n : name)             (* drop(r.clone()) with method syntax on the holder itself: on an EnteredSpan guard `.clone()`
                                         auto-derefs to Span::clone and yields a plain Span (n: a scratch name, dead before and after) *)
 | CloneFrom (a b n : name)           (* a.clone_from(&b)  (also through Box / Option / Vec ::clone_from; n: scratch name) *)
+| PDrop (n : name)                   (* n is a local of a frame that unwinds (a contained panic): dropped while the thread panics *)
+| ScopeEndL (unwind : bool) (ls : list name)   (* the in_scope closure returns / unwinds owning the holders ls as locals:
+                                                  they are dropped in order, then the guard exits *)
+| PollEndL (res : pollres) (ls : list name)    (* the same for the body of a poll *)
+| InstrumentCurrent (n : name) (flavour : bool)  (* n = fut.in_current_span() *)
 | PollBegin (f : name)               (* Pin::new(&mut f).poll(cx) { ... *)
 | PollEnd (res : pollres)            (*   ... } *)
 | IntoInner (f : name)               (* drop(f.into_inner()) *)
@@ -197,15 +202,8 @@ Definition in_wd_poll (o : own) (t : tid) : bool :=
   existsb (fun e => (e_tid e =? t) && match e_kind e with EPoll => true | _ => false end &&
                     match kind_of o (e_holder e) with Some (KFutW _) => true | _ => false end) (o_ents o).
 
-Definition compile (o : own) (t : tid) (a : action) : option (list micro) :=
-  match a with
-  | New n h p =>
-      if negb (live o n) && match parent_ref p with Some r => readable o r | None => true end
-      then Some [MNewSpan n t h p] else None
-  | Clone r n => if readable o r && negb (live o n) then Some [MCloneTo r n t] else None
-  | Current n => if negb (live o n) then Some [MCurrentTo n t] else None
-  | OrCurrent n => if is_handle o n && free o n then Some [MOrCurrent n t] else None
-  | Drop n =>
+(** dropping holder n on thread t: a plain handle, an EnteredSpan of that thread, or an Instrumented future *)
+Definition drop_micros (o : own) (t : tid) (n : name) : option (list micro) :=
       match kind_of o n, ents_on o n with
       | Some KHandle, [] => Some [MRelease n t]
       | Some KHandle, [e] =>
@@ -217,7 +215,39 @@ Definition compile (o : own) (t : tid) (a : action) : option (list micro) :=
           let e := mkEnt ETmp n t in
           Some [MEnterE e; MMark t (MInnerDrop n); MExitE e; MRelease n t]
       | _, _ => None
+      end.
+
+Fixpoint oexec (ms : list micro) (o : own) : option own :=
+  match ms with [] => Some o | m :: ms' => match mo m o with Some o' => oexec ms' o' | None => None end end.
+
+(** dropping the locals ls of a frame, in order: the micro-actions and the ownership state afterwards *)
+Fixpoint drops (o : own) (t : tid) (ls : list name) : option (list micro * own) :=
+  match ls with
+  | [] => Some ([], o)
+  | n :: ls' =>
+      match drop_micros o t n with
+      | Some ms =>
+          match oexec ms o with
+          | Some o1 =>
+              match drops o1 t ls' with
+              | Some (ms', o2) => Some (ms ++ ms', o2)
+              | None => None
+              end
+          | None => None
+          end
+      | None => None
       end
+  end.
+
+Definition compile (o : own) (t : tid) (a : action) : option (list micro) :=
+  match a with
+  | New n h p =>
+      if negb (live o n) && match parent_ref p with Some r => readable o r | None => true end
+      then Some [MNewSpan n t h p] else None
+  | Clone r n => if readable o r && negb (live o n) then Some [MCloneTo r n t] else None
+  | Current n => if negb (live o n) then Some [MCurrentTo n t] else None
+  | OrCurrent n => if is_handle o n && free o n then Some [MOrCurrent n t] else None
+  | Drop n | PDrop n => drop_micros o t n
   | Enter r g =>
       if readable o r && match find_guard o g with None => true | Some _ => false end
       then Some [MEnterE (mkEnt (EGuard g) r t)] else None
@@ -289,12 +319,34 @@ Definition compile (o : own) (t : tid) (a : action) : option (list micro) :=
       (* the provided Clone::clone_from: `*self = source.clone()` — clone first, then the old value is dropped *)
       if is_handle o a && free o a && readable o b && negb (a =? b) && negb (live o n)
       then Some [MCloneTo b n t; MSwap a n; MRelease n t] else None
+  | ScopeEndL _ ls =>
+      match drops o t ls with
+      | Some (ms, o') =>
+          match top_frame o' t with
+          | Some e => match e_kind e with EScope => Some (ms ++ [MExitE e]) | _ => None end
+          | None => None end
+      | None => None end
+  | PollEndL _ ls =>
+      match drops o t ls with
+      | Some (ms, o') =>
+          match top_frame o' t with
+          | Some e =>
+              match e_kind e with
+              | EPoll =>
+                  match kind_of o' (e_holder e) with
+                  | Some KFut => Some (ms ++ [MExitE e])
+                  | Some (KFutW false) => Some (ms ++ [MExitE e; MPopDefault t])
+                  | Some (KFutW true) => Some (ms ++ [MPopDefault t; MExitE e])
+                  | _ => None
+                  end
+              | _ => None end
+          | None => None end
+      | None => None end
+  | InstrumentCurrent n _ => if negb (live o n) then Some [MCurrentTo n t; MSetKind n KFut] else None
   | SetDefault c => if in_wd_poll o t then None else Some [MPushDefault t c]
   | CloseScope => if in_wd_poll o t then None else Some [MPopDefault t]
   end.
 
-Fixpoint oexec (ms : list micro) (o : own) : option own :=
-  match ms with [] => Some o | m :: ms' => match mo m o with Some o' => oexec ms' o' | None => None end end.
 Definition ostep (o : own) (x : op) : option own :=
   match compile o (fst x) (snd x) with Some ms => oexec ms o | None => None end.
 Fixpoint orun_from (o : own) (p : prog) : option own :=
@@ -355,13 +407,15 @@ Definition id_of_val (v : sval) : option sid :=
   match v with SNone => None | SNoColl => Some NOCOLL_ID | SSpan i _ => Some i end.
 
 (** Collectors 3, 4, ... hand out a FRESH id from `clone_span` (one id per handle, all aliases of the same span; "if the
-    id is itself a pointer of some kind this can be used as a hook to clone the pointer") and do not track the current
-    span (`current_span` = the trait's default `Current::unknown()`); collectors 1 and 2 return the id they were given. *)
+    id is itself a pointer of some kind this can be used as a hook to clone the pointer"); collectors 1 and 2 return the id
+    they were given.  All of them track the current span the same way (innermost span entered on the thread; exit removes
+    the most recent occurrence of that SPAN); an alias collector names it by the newest alias it has issued for that span
+    and not yet seen closed ([live_alias]). *)
 Definition per_handle (c : cid) : bool := 3 <=? c.
 
 Definition do_current (d : dyn) (n : name) (t : tid) : dyn :=
   let c := cur_default d t in
-  if (c =? 0) || per_handle c then set_val d n SNone
+  if c =? 0 then set_val d n SNone
   else match stack_of (d_log d) c t with
        | i :: _ => note_made (set_val (emit d (ECall c t (CClone i))) n (SSpan i c)) (i, c)
        | [] => set_val d n SNone
@@ -429,6 +483,37 @@ Definition set_hid (d : dyn) (n : name) (h : sid) : dyn := with_h d ((n, h) :: d
 Definition shown_id (d : dyn) (n : name) : sid :=          (* Span::id() of a handle *)
   match val_of d n with SNone => 0 | _ => hid_of d n end.
 
+(** the id by which alias collector c names span i when asked for the current span: the newest id it issued for i (by
+    new_span or clone_span) for which it has not yet received try_close; [closed]: ids seen closed further up the log *)
+Fixpoint live_alias (l : list entry) (hl : list (sid * sid)) (i : sid) (c : cid) (closed : list sid) : option sid :=
+  match l, hl with
+  | e :: l', x :: hl' =>
+      match e with
+      | ECall c' _ (CClose j) =>
+          if (c' =? c) && (j =? i) then live_alias l' hl' i c (fst x :: closed) else live_alias l' hl' i c closed
+      | ECall c' _ (CClone j) =>
+          if (c' =? c) && (j =? i) && negb (memN (snd x) closed) then Some (snd x) else live_alias l' hl' i c closed
+      | ECall c' _ (CNew j _) =>
+          if (c' =? c) && (j =? i) && negb (memN i closed) then Some i else live_alias l' hl' i c closed
+      | _ => live_alias l' hl' i c closed
+      end
+  | _, _ => None
+  end.
+Definition current_alias (d : dyn) (i : sid) (c : cid) : sid :=
+  match live_alias (d_log d) (d_hlog d) i c [] with Some a => a | None => i end.
+
+(** the handle Span::current() makes: for an alias collector clone_span(&<the alias naming the current span>) returns a
+    fresh id, which the new handle carries *)
+Definition mh_current (d d' : dyn) (n : name) : dyn :=
+  match val_of d' n with
+  | SSpan i c =>
+      if per_handle c then
+        let j := d_next d' in
+        with_h d' ((n, j) :: d_hid d') ((current_alias d i c, j) :: d_hlog d') (j + 1)
+      else set_hid (hpush d' (i, i)) n i
+  | _ => set_hid d' n 0
+  end.
+
 Definition mh (m : micro) (d d' : dyn) : dyn :=
   match m with
   | MNewSpan n _ _ p =>
@@ -447,13 +532,8 @@ Definition mh (m : micro) (d d' : dyn) : dyn :=
           else set_hid (hpush d' (h, h)) n h
       | _ => set_hid d' n (hid_of d r)
       end
-  | MCurrentTo n _ =>
-      match val_of d' n with SSpan i _ => set_hid (hpush d' (i, i)) n i | _ => set_hid d' n 0 end
-  | MOrCurrent n _ =>
-      match val_of d n with
-      | SNone => match val_of d' n with SSpan i _ => set_hid (hpush d' (i, i)) n i | _ => set_hid d' n 0 end
-      | _ => d'
-      end
+  | MCurrentTo n _ => mh_current d d' n
+  | MOrCurrent n _ => match val_of d n with SNone => mh_current d d' n | _ => d' end
   | MRelease n _ | MRecord n _ => match val_of d n with SSpan _ _ => hpush d' (hid_of d n, 0) | _ => d' end
   | MEnterE e | MExitE e => match val_of d (e_holder e) with SSpan _ _ => hpush d' (hid_of d (e_holder e), 0) | _ => d' end
   | MFollows r r' _ =>
@@ -510,7 +590,7 @@ Definition enc_entry (ex : entry * (sid * sid)) : N * N * N * N * N * N :=
   end.
 Definition produced (a : action) : option name :=
   match a with New n _ _ | Clone _ n | Current n | OrCurrent n | ExitOwned n | CloneFut _ n | SpanMutSwap _ n
-  | CloneFrom n _ _ => Some n
+  | CloneFrom n _ _ | InstrumentCurrent n _ => Some n
   | _ => None end.
 Definition enc_id (v : sval) : N := match id_of_val v with Some i => i + 1 | None => 0 end.
 Definition enc_shown (d : dyn) (n : name) : N := match val_of d n with SNone => 0 | _ => hid_of d n + 1 end.
